@@ -119,13 +119,19 @@ theorem value_ending_inside_a_prefix (s : Bool) (buf1 suf : Buf) (f w e : Nat)
 /-- **the whole-input parse as the code composes it accepts only strictly well-formed TEXT** (`Impl/DomPadded.lean`:
     `from_slice::<Value>` = the decoding parser on the padded copy `t ++ x"x ++ zeros` that `parse_with_padding` makes, a value
     that ends behind the text is an error (`n > len`), then `parse_trailing` allows only blanks up to the end of the text):
-    whatever it accepts, the specification accepts — as a document of `t`, not of its padded copy.  (With
-    `decoding_accept_iff`, the in-place decoder theorems of C09 and this, the accept side of the property's first sentence
-    is proved for the parser as it runs; the converse for the padded composition — a well-formed text stays acceptable
-    when the padding follows it — is compared on every case of this stream (`m.domp`), not proved.) -/
+    whatever it accepts, the specification accepts — as a document of `t`, not of its padded copy -/
 theorem whole_input_parse_on_the_padded_copy_accepts_only_wellformed_text (t : Buf) (tr : Spec.Json)
     (h : DomP.fromSlicePadded t = some tr) : ∃ s e, Spec.document true t = some (s, e) :=
   DomP.fromSlicePadded_sound t tr h
+
+/-- … **and exactly those**: a value of the text stays a value when the padding follows it (its first byte `x` cannot continue a
+    number: `GrammarPad.value_extend`), so with the completeness of the decoding parser every strictly well-formed text is
+    accepted.  With the in-place decoder theorems of C09 (the strings are decoded in the padded buffer as the model's decoder
+    decodes them) this is the property's first sentence for `from_slice::<Value>` as it runs — up to UTF-8 validity of the
+    whole input (`simdutf8`, compared) and the finiteness of float requests (the float back end, compared in C07) -/
+theorem whole_input_parse_on_the_padded_copy_accept_iff (t : Buf) :
+    (DomP.fromSlicePadded t).isSome = true ↔ (Spec.document true t).isSome = true :=
+  DomP.fromSlicePadded_accept_iff t
 
 /-- the bytewise scan of `Space` is the scalar `skip_space` every other model uses -/
 theorem bytewise_is_scalar_skip_space (buf : Buf) (i : Nat) :
